@@ -93,9 +93,12 @@ RULE = (
     "cases = one megacomplex + one dataset model each: damped oscillation (1-3 oscillations, frequencies 0..2000 "
     "cm^-1, rates of either sign and 0; no IRF / gaussian / multi-gaussian (1-3 Gaussians, every broadcasting "
     "pattern, scale lists of equal and unequal length) / spectral (multi-)gaussian with centre and width dispersion "
-    "up to order 3 in wavelength or wavenumber; per-index shifts, distinct per index), PFID (negative rates, "
+    "up to order 3 in wavelength or wavenumber; per-index shifts, distinct per index; in ~30 % of the IRF cases the "
+    "spectral axis holds whole numbers and is handed to the library as an int64 / int32 array - same values for the "
+    "model and the oracle, non-integer IRF centres / widths / shifts), PFID (negative rates, "
     "probe axis around the resonance, inverted/scaled spectral axis, unsupported non-negative rates), coherent "
-    "artifact (orders 0-4, own or IRF width), spectral shapes (gaussian / skewed incl. skewness 0, +-1e-9, +-1e-8, "
+    "artifact (orders 0-4, own or IRF width; ~6 % with width dispersion only, i.e. indices sharing the IRF position but "
+    "not the width), spectral shapes (gaussian / skewed incl. skewness 0, +-1e-9, +-1e-8, "
     "+-2e-8, up to +-2, axis points at the location, at +-FWHM/2 and where the logarithm's argument changes "
     "sign; one / zero; inverted and scaled axes), datasets of 2-3 spectral megacomplexes sharing compartments (dataset matrix), the "
     "enumeration shape type x axis mode x axis order. Model axes of 2-14 points around the pulse incl. exact window "
@@ -179,6 +182,17 @@ def gen_global_axis(rng, irf, n_idx, around=None):
     if rng.random() < 0.15:
         rng.shuffle(xs)
     return xs
+
+
+def gen_axis_storage(rng, case):
+    """how the spectral axis *array* is stored: in ~30 % of the cases with an IRF the axis values are whole numbers handed
+    over as an integer array (`np.arange(400, 700, 10)`, pixel numbers, integer wavelengths of a file) - the same values
+    for the model and the oracle; the IRF centres / widths / shifts / dispersion stay non-integer.  Call before the time
+    axis is generated (the pulse positions depend on the axis values)."""
+    if case.get("irf") is None or rng.random() >= 0.3:
+        return
+    case["global_axis"] = [float(round(x)) for x in case["global_axis"]]
+    case["global_axis_dtype"] = rng.choice(["int64", "int64", "int32"])
 
 
 def irf_positions(irf, i, x):
@@ -277,10 +291,12 @@ def gen_osc_case(rng, *, stream="main"):
         oscs.append([f"osc{j + 1}", float(nu), float(g)])
     if n >= 2 and rng.random() < 0.3:
         oscs[1][0] = oscs[0][0] + "x"      # prefix label
-    gax = gen_global_axis(rng, irf, n_idx)
+    case = {"kind": "osc", "oscs": oscs, "irf": irf, "global_axis": gen_global_axis(rng, irf, n_idx)}
+    gen_axis_storage(rng, case)
+    gax = case["global_axis"]
     rs = max([abs(o[2]) for o in oscs] + [1e-3])
     tax = gen_time_axis(rng, irf, n_idx, gax, rs, dyadic=dy)
-    case = {"kind": "osc", "oscs": oscs, "irf": irf, "global_axis": gax, "model_axis": tax}
+    case["model_axis"] = tax
     if stream != "wrap":
         # keep the main stream below the code's wrap threshold (note N1): thin the frequencies, not the axis
         fm = fmax_of(tax)
@@ -332,9 +348,10 @@ def gen_pfid_case(rng):
         for key in ("center_dispersion_coefficients", "width_dispersion_coefficients"):
             irf[key] = [c * 3 for c in irf[key]]
     rs = max(abs(o[2]) for o in oscs)
-    tax = gen_time_axis(rng, irf, n_idx, gax, rs, dyadic=dy)
-    return {"kind": "pfid", "oscs": oscs, "irf": irf, "global_axis": gax, "model_axis": tax,
-            "inverted": inverted, "scale": float(scale)}
+    case = {"kind": "pfid", "oscs": oscs, "irf": irf, "global_axis": gax, "inverted": inverted, "scale": float(scale)}
+    gen_axis_storage(rng, case)
+    case["model_axis"] = gen_time_axis(rng, irf, n_idx, case["global_axis"], rs, dyadic=dy)
+    return case
 
 
 def gen_artifact_case(rng):
@@ -345,13 +362,22 @@ def gen_artifact_case(rng):
     own = None
     if rng.random() < 0.4:
         own = rng.choice([0.125, 0.5, 2.0]) if dy else _logu(rng, 1e-3, 5)
-    gax = gen_global_axis(rng, irf, n_idx)
+    if irf is not None and irf["type"] in R.SPECTRAL_TYPES and n_idx >= 2 and rng.random() < 0.25:
+        # indices that share the IRF position but not the IRF width: width dispersion only (a response is a function of
+        # position AND width; by chance this class came up about once per quick run)
+        irf["center_dispersion_coefficients"], irf["shift"], own = [], None, None
+        if not irf["width_dispersion_coefficients"]:
+            irf["width_dispersion_coefficients"] = [(0.125 if dy else rng.uniform(0.05, 0.3)) * irf["width"][0]]
+    case = {"kind": "artifact", "irf": irf, "global_axis": gen_global_axis(rng, irf, n_idx)}
+    gen_axis_storage(rng, case)
+    gax = case["global_axis"]
     tax = gen_time_axis(rng, irf, n_idx, gax, 1.0, dyadic=dy) if irf else [0.0, 1.0, 2.0]
     if own is not None and irf is not None:
         p = irf_positions(irf, 0, gax[0])[0][0] if len(irf["center"]) == len(irf["width"]) or 1 in (len(irf["center"]), len(irf["width"])) else 0.0
         tax = sorted(set(tax + [p + own * u for u in (-2.0, -1.0, 0.5, 1.0, 3.0)]))[:16]
-    return {"kind": "artifact", "order": order, "width": own, "irf": irf, "global_axis": gax,
-            "model_axis": [float(t) for t in tax], "label": rng.choice(["ca", "m", "artifact_1"])}
+    case.update({"order": order, "width": own, "model_axis": [float(t) for t in tax],
+                 "label": rng.choice(["ca", "m", "artifact_1"])})
+    return case
 
 
 SKEWS = [0.0, 1e-15, -1e-12, 1e-9, -1e-9, 1e-8, -1e-8, 1.0000001e-8, 2e-8, -2e-8, 1e-6, 1e-3, -1e-3, 0.1, -0.1, 0.5, -0.7, 1.0, 2.0, -2.0]
@@ -526,6 +552,15 @@ def correspond(ck, cases, ne, reals=None):
             ck.count(f"irf-lengths:{len(irf['center'])}c{len(irf['width'])}w" + ("+scale" + str(len(irf["scale"])) if irf.get("scale") else ""))
             if irf.get("shift"):
                 ck.count("irf:shifted")
+            if kind == "artifact" and case.get("width") is None and well_formed_irf(irf):
+                try:
+                    pw = [irf_positions(irf, i, x)[0][:2] for i, x in enumerate(case["global_axis"])]
+                    if len({p for p, _ in pw}) < len(set(pw)):
+                        ck.count("artifact:indices-with-same-position-different-width")
+                except Exception:  # noqa: BLE001 - malformed IRF of the error stream
+                    pass
+            ck.count(f"global-axis-dtype:{kind}:{case.get('global_axis_dtype') or 'float64'}"
+                     + (":index-dependent" if irf.get("shift") or irf["type"] in R.SPECTRAL_TYPES else ""))
         tree = R.parse_answer(ans)
         if ans == "bad-op" or not tree:
             raise core.HarnessError(f"model refused line {line[:200]}")
